@@ -39,6 +39,32 @@ def _prod(noise_type, g, v):
     return torch.bmm(g, v.unsqueeze(-1)).squeeze(dim=-1)
 
 
+class Normed(nn.Module):
+    """The SDE with a frozen normalisation layer in its drift: a BatchNorm1d in eval() mode (running statistics, no
+    updates) inside a module that is itself in training mode - a fine-tuning set-up. Which mode its sub-modules are in is the
+    user's business: solving must not change it (in train mode the layer would normalise with batch statistics)."""
+
+    def __init__(self, base):
+        super().__init__()
+        self.base = base
+        self.noise_type, self.sde_type, self.spec = base.noise_type, base.sde_type, base.spec
+        d = base.spec["d"]
+        self.norm = nn.BatchNorm1d(d).double()
+        with torch.no_grad():
+            self.norm.running_mean.copy_(torch.linspace(-0.3, 0.4, d, dtype=torch.float64))
+            self.norm.running_var.copy_(torch.linspace(0.6, 1.7, d, dtype=torch.float64))
+        self.norm.eval()
+
+    def f(self, t, y):
+        return self.base.f(t, self.norm(y))
+
+    def g(self, t, y):
+        return self.base.g(t, y)
+
+    def h(self, t, y):
+        return self.base.h(t, y)
+
+
 def make_variant(base, variant):
     nt = base.noise_type
 
@@ -123,7 +149,10 @@ def _iface_case(draw, tier):
         spec["m"] = draw(st.sampled_from([spec["m"], spec["m"], 5, 6, 7]))
     tset = draw(solve.time_setup(max_steps=6))
     return {"kind": "iface", "spec": spec, "combo": combo, "time": tset, "variant": draw(st.sampled_from(VARIANTS)),
-            "entropy": draw(st.integers(0, 2 ** 31 - 2))}
+            "entropy": draw(st.integers(0, 2 ** 31 - 2)), "frozen_norm": draw(st.sampled_from([False, False, True])),
+            # `method` left out: the documented default for the declared calculus / noise type is used - for every spelling
+            # of the coefficients (same solution, or the same explicit refusal)
+            "default_method": draw(st.sampled_from([False, False, False, True]))}
 
 
 @st.composite
@@ -153,7 +182,8 @@ def enumerate_cases(tier):
                 "dtype": "float64"}
         for variant in VARIANTS:
             yield {"kind": "iface", "spec": spec, "combo": combo, "variant": variant, "entropy": rnd.randrange(2 ** 31 - 2),
-                   "time": {"t0": 0.2, "t1": 0.2 + 3 * 0.25, "dt": 0.25, "tdtype": "float64"}}
+                   "time": {"t0": 0.2, "t1": 0.2 + 3 * 0.25, "dt": 0.25, "tdtype": "float64"},
+                   "frozen_norm": rnd.random() < 0.4, "default_method": rnd.random() < 0.25}
 
 
 def run_case(case):
@@ -164,6 +194,9 @@ def _run_iface(case):
     import torchsde
     spec, combo, tm = case["spec"], case["combo"], case["time"]
     base = sdes.build_generic(spec)
+    normed = None
+    if case.get("frozen_norm") and spec.get("dtype", "float64") == "float64":
+        base = normed = Normed(base)
     y0 = sdes.y0_for(spec)
     ts = torch.tensor([tm["t0"], 0.5 * (tm["t0"] + tm["t1"]), tm["t1"]], dtype=torch.float64)
     sig = {"variant": case["variant"], "method": combo["method"], "noise_type": spec["noise_type"],
@@ -176,6 +209,11 @@ def _run_iface(case):
         return Result(labels=[f"variant={case['variant']}", "skipped:logqp_shape"])
 
     reuse = {"bad": None}
+    dflt = bool(case.get("default_method")) and not logqp
+    mth = None if dflt else combo["method"]
+    # the default Ito solver for diagonal / additive / scalar noise (srk) needs a space-time Levy area from the Brownian motion
+    levy_ = "space-time" if (dflt and spec["sde_type"] == "ito" and spec["noise_type"] != "general") else combo["levy"]
+    opts_ = None if dflt else (dict(combo["options"]) or None)
 
     def go(variant):
         sde, names = make_variant(base, variant)
@@ -195,23 +233,23 @@ def _run_iface(case):
                 else:
                     setattr(sde, meth + "_other", lambda t, y, w, o=orig: tuple(0.5 * x + 0.1 for x in o(t, y, w)))
             with torch.no_grad():
-                torchsde.sdeint(sde, y0, ts, method=combo["method"], dt=tm["dt"], options=dict(combo["options"]) or None,
-                                bm=sdes.make_bm(torchsde, spec, ts[0], ts[-1], case["entropy"], levy=combo["levy"]),
+                torchsde.sdeint(sde, y0, ts, method=mth, dt=tm["dt"], options=opts_,
+                                bm=sdes.make_bm(torchsde, spec, ts[0], ts[-1], case["entropy"], levy=levy_),
                                 names={k_: v_ + "_other" for k_, v_ in names.items()})
         # the caller's `names` dict is an input: the same object is passed to two consecutive solves and must neither be
         # modified nor lose its effect
         for _rep in range(2 if names is not None else 1):
-            bm = sdes.make_bm(torchsde, spec, ts[0], ts[-1], case["entropy"], levy=combo["levy"])
+            bm = sdes.make_bm(torchsde, spec, ts[0], ts[-1], case["entropy"], levy=levy_)
             with torch.no_grad():
-                out = torchsde.sdeint(sde, y0, ts, bm=bm, method=combo["method"], dt=tm["dt"],
-                                      options=dict(combo["options"]) or None, names=names, logqp=logqp)
+                out = torchsde.sdeint(sde, y0, ts, bm=bm, method=mth, dt=tm["dt"],
+                                      options=opts_, names=names, logqp=logqp)
             outs.append(torch.cat([out[0].reshape(-1), out[1].reshape(-1)]) if logqp else out)
         if names is not None and (names != names_before or not torch.equal(outs[0], outs[1])):
             reuse["bad"] = (names_before, dict(names), float((outs[0] - outs[1]).abs().max()))
         return outs[0]
 
     ref = go("f,g")
-    labels = [f"variant={case['variant']}", solve.combo_label(combo)]
+    labels = [f"variant={case['variant']}", solve.combo_label(combo)] + (["method_left_at_default"] if dflt else [])
     try:
         got = go(case["variant"])
     except (RuntimeError, ValueError, AttributeError) as e:
@@ -228,6 +266,13 @@ def _run_iface(case):
                 sig))
         labels.append("outcome=explicit_error")
         return Result(nontrivial=True, labels=labels, checks=1)
+    if normed is not None:
+        labels.append("frozen_batchnorm_submodule")
+        if normed.norm.training or not normed.training:
+            return Result(nontrivial=True, checks=1, fail=Fail(
+                "sde_module_mode_changed", f"solving through variant {case['variant']} changed the train/eval mode of the user's "
+                                           f"modules (frozen BatchNorm1d now training={normed.norm.training}, its parent "
+                                           f"training={normed.training})", sig))
     if reuse["bad"] is not None:
         nb, na, d = reuse["bad"]
         return Result(nontrivial=True, checks=1, fail=Fail(
